@@ -17,7 +17,7 @@ SIG = {
     'oid_is': {'sort': 'bool', 'uf': True},
     'oid_startswith': {'sort': 'bool', 'uf': True},
     'oid_der': {'sort': 'bytes', 'uf': True, 'facts': ['len(result) >= 3']},
-    'octets': 'int',
+    'octets': {'sort': 'int', 'facts': ['result >= 1']},      # fact proved from the definition: unit enc.pkcs1v15.spec_lemmas
     # ---- section EMSA-PKCS1-v1_5 / RSAES-PKCS1-v1_5 (sig_rsa.py, pkcs1_enc.py)
     'null_required': 'bool', 'emsa_pkcs1_v15_fits': 'bool', 'emsa_pkcs1_v15': 'bytes',
     # size fact used where digest_info is opaque: leaving out the two octets 05 00 never makes the DER encoding longer (the
@@ -27,9 +27,13 @@ SIG = {
     # PS of RSAES-PKCS1-v1_5 as drawn from the caller's byte source: the non-zero octets among the one-octet draws
     # number c0, c0+1, ..., c1-1 of the tape, in order (definition by recursion on c1; conservative)
     'nonzero_draws': {'sort': 'bytes', 'uf': True,
-                      'facts': ['c1 <= c0 ==> result == b""',
-                                'c1 > c0 ==> result == nonzero_draws(c0, c1 - 1) + ite(rnd_tape(c1 - 1) == bytes(1), b"", rnd_tape(c1 - 1))']},
-    'eme_pkcs1_v15': 'bytes', 'eme_pkcs1_v15_sep': 'int', 'eme_pkcs1_v15_ok': 'bool', 'eme_pkcs1_v15_msg': 'bytes',
+                      'facts': ['any((c1 > c0, result == b""))',
+                                'any((c1 <= c0, result == nonzero_draws(c0, c1 - 1) + ite(rnd_tape(c1 - 1) == bytes(1), b"", rnd_tape(c1 - 1))))']},
+    'eme_pkcs1_v15': 'bytes', 'eme_pkcs1_v15_ok': 'bool', 'eme_pkcs1_v15_msg': 'bytes',
+    # the two facts below are what the proofs that keep these functions opaque need of their definitions; they are PROVED from the
+    # definitions by unit enc.pkcs1v15.spec_lemmas (contracts/pkcs1_enc.py), not trusted  (any/all: the strict forms of or/and)
+    'eme_pkcs1_v15_sep': {'sort': 'int', 'facts': ['any((result == -1, all((10 <= result, result < len(em)))))']},
+    'eme_pkcs1_v15_padded': {'sort': 'bool', 'facts': ['any((not result, eme_pkcs1_v15_sep(em) >= 10))']},
     'pkcs1_decode_bad_args': 'bool',
     # ---- section MGF1 / EMSA-PSS / RSAES-OAEP (sig_pss.py, enc_oaep.py)
     'MGF': {'sort': 'bytes', 'uf': True, 'facts': ['length >= 0 ==> len(result) == length']},
@@ -172,22 +176,26 @@ def eme_pkcs1_v15(ps, m):
 def eme_pkcs1_v15_sep(em):
     """index of the 0x00 octet that ends PS when PS has its minimum length of 8 non-zero octets: the first zero octet at an
     index >= 10; -1 if there is none"""
-    return em.find(b'\x00', 10)
+    j = em[10:].find(b'\x00')
+    if j < 0:
+        return -1
+    return 10 + j
 
 
-def eme_pkcs1_v15_ok(em, expected):
-    """7.2.2 step 3: EM == 0x00 || 0x02 || PS || 0x00 || M with PS non-zero octets, len(PS) >= 8 -- plus the library's
-    convention that a non-zero `expected` is the only acceptable length of M"""
+def eme_pkcs1_v15_padded(em):
+    """7.2.2 step 3: EM == 0x00 || 0x02 || PS || 0x00 || M with PS non-zero octets, len(PS) >= 8"""
     if len(em) < 11:
         return False
     if em[0] != 0 or em[1] != 2:
         return False
     if em[2] == 0 or em[3] == 0 or em[4] == 0 or em[5] == 0 or em[6] == 0 or em[7] == 0 or em[8] == 0 or em[9] == 0:
         return False                                    # a zero octet here would end a PS of fewer than 8 octets
-    j = eme_pkcs1_v15_sep(em)
-    if j < 0:
-        return False                                    # no octet 0x00 separates PS from M
-    return expected == 0 or len(em) - 1 - j == expected
+    return eme_pkcs1_v15_sep(em) >= 0                   # else no octet 0x00 separates PS from M
+
+
+def eme_pkcs1_v15_ok(em, expected):
+    """... plus the library's convention that a non-zero `expected` is the only acceptable length of M"""
+    return all((eme_pkcs1_v15_padded(em), any((expected == 0, len(em) - 1 - eme_pkcs1_v15_sep(em) == expected))))
 
 
 def eme_pkcs1_v15_msg(em):
@@ -198,7 +206,7 @@ def eme_pkcs1_v15_msg(em):
 def pkcs1_decode_bad_args(n, ls, expected):
     """the argument refusals of the C function pkcs1_decode (DESIGN C07; src/pkcs1_decode.c proves them under C07/C17):
     n = len(em) = len(output), ls = len(sentinel), expected as the size_t the C function receives"""
-    return n < 12 or ls > n or (expected > 0 and expected > n - 11)
+    return any((n < 12, ls > n, all((expected > 0, expected > n - 11))))
 
 
 # ================================================================ section MGF1 / EMSA-PSS / RSAES-OAEP (sig_pss.py, enc_oaep.py)
@@ -206,7 +214,9 @@ def pkcs1_decode_bad_args(n, ls, expected):
 
 def ceil8(bits):
     """ceil(bits / 8)"""
-    return (bits + 7) // 8
+    if bits % 8 == 0:
+        return bits // 8
+    return bits // 8 + 1
 
 
 def ceil_div(a, b):
@@ -226,7 +236,7 @@ def MGF(g_id, seed, length):
 def mgf1_T(alg, seed, blocks):
     """RFC 8017 B.2.1 step 3: the string T after `blocks` iterations,
          T(0) = empty,   T(j + 1) = T(j) || Hash(mgfSeed || C),  C = I2OSP(j, 4)
-    The recursion is kept as an uninterpreted symbol; its two defining equations are the SIG facts (DEFINITIONAL: they are the
+    The recursion is kept as an uninterpreted symbol; its defining equation is the SIG fact (DEFINITIONAL: it is the
     recursive definition itself, instantiated at the applications that occur in a proof)."""
     pass
 
@@ -260,7 +270,7 @@ def low_bits(z):
 
 def clear_left(x, z):
     """the octet string x (non-empty) with the leftmost z bits of its leftmost octet set to zero"""
-    return bytes([nth(x, 0) % low_bits(z)]) + x[1:]
+    return i2osp(nth(x, 0) % low_bits(z), 1) + x[1:]
 
 
 def emsa_pss_H(alg, mHash, salt):
@@ -268,12 +278,12 @@ def emsa_pss_H(alg, mHash, salt):
     return Hash(alg, rep(bytes(1), 8) + mHash + salt)
 
 
-def emsa_pss_em(alg, mHash, emBits, salt, dbMask):
-    """EMSA-PSS-ENCODE, RFC 8017 9.1.1 steps 5-12, for a hash value mHash, salt and dbMask = MGF(H, emLen - hLen - 1)
-    (the caller supplies the mask because the mask generation function is a parameter of the scheme):
+def emsa_pss_em(alg, hLen, mHash, emBits, salt, dbMask):
+    """EMSA-PSS-ENCODE, RFC 8017 9.1.1 steps 5-12, for a hash function `alg` with output length hLen, a hash value mHash,
+    a salt, and dbMask = MGF(H, emLen - hLen - 1) (the caller supplies the mask because the mask generation function is a
+    parameter of the scheme):
        DB = PS || 0x01 || salt, PS = emLen - sLen - hLen - 2 zero octets;  maskedDB = DB xor dbMask with the leftmost
        8 emLen - emBits bits of its leftmost octet set to zero;  EM = maskedDB || H || 0xbc"""
-    hLen = hlen(alg)
     emLen = ceil8(emBits)
     sLen = len(salt)
     H = emsa_pss_H(alg, mHash, salt)
@@ -282,34 +292,32 @@ def emsa_pss_em(alg, mHash, emBits, salt, dbMask):
     return maskedDB + H + b'\xbc'
 
 
-def emsa_pss_ok(alg, mHash, em, emBits, sLen, dbMask):
-    """EMSA-PSS-VERIFY outputs "consistent", RFC 8017 9.1.2 steps 3-14, for EM an octet string of length
-    emLen = ceil(emBits / 8) (any other length: False, cf. 8.1.2 step 2c) and dbMask = MGF(H, emLen - hLen - 1) where
-    H = the hLen octets of EM before the trailer (supplied by the caller, see emsa_pss_em)"""
-    hLen = hlen(alg)
+def emsa_pss_ok(alg, hLen, mHash, em, emBits, sLen, dbMask):
+    """EMSA-PSS-VERIFY outputs "consistent", RFC 8017 9.1.2 steps 3-14, for a hash function `alg` with output length hLen,
+    EM an octet string of length emLen = ceil(emBits / 8) (any other length: False, cf. 8.1.2 step 2c) and
+    dbMask = MGF(H, emLen - hLen - 1) where H = the hLen octets of EM before the trailer (supplied by the caller, see emsa_pss_em)"""
     emLen = ceil8(emBits)
     if len(em) != emLen:
         return False
     if emLen < hLen + sLen + 2:                                     # step 3
         return False
-    if nth(em, emLen - 1) != 188:                                   # step 4: rightmost octet 0xbc
+    if nth(em, len(em) - 1) != 188:                                 # step 4: the rightmost octet of EM is 0xbc
         return False
-    maskedDB = em[:emLen - hLen - 1]                                # step 5
-    H = em[emLen - hLen - 1:emLen - 1]
+    maskedDB = em[:emLen - hLen - 1]                                # step 5: EM = maskedDB || H || 0xbc
+    H = em[emLen - hLen - 1:len(em) - 1]
     z = 8 * emLen - emBits
     if nth(maskedDB, 0) >= low_bits(z):                             # step 6: leftmost z bits of maskedDB not all zero
         return False
     DB = clear_left(xor(maskedDB, dbMask), z)                       # steps 7-9
-    ps = emLen - hLen - sLen - 2
-    if DB[:ps] != rep(bytes(1), ps) or nth(DB, ps) != 1:            # step 10
+    if not DB.startswith(rep(bytes(1), emLen - hLen - sLen - 2) + b'\x01'):    # step 10: DB = PS || 0x01 || salt, PS zero octets
         return False
     salt = DB[len(DB) - sLen:]                                      # step 11: the last sLen octets of DB
     return H == emsa_pss_H(alg, mHash, salt)                        # steps 12-14
 
 
 def pss_H(em, emBits, hLen):
-    """the field H of an encoded message of emLen octets (9.1.2 step 5)"""
-    return em[ceil8(emBits) - hLen - 1:ceil8(emBits) - 1]
+    """the field H of an encoded message EM = maskedDB || H || 0xbc (9.1.2 step 5)"""
+    return em[ceil8(emBits) - hLen - 1:len(em) - 1]
 
 
 def first_nonzero(s):
